@@ -197,6 +197,21 @@ impl Blockchain {
             return AddBlockResult::BlockAlreadyExists;
         }
 
+        // blocks at or below the purge horizon are deleted as the chain grows (see
+        // update_genesis_period). storing one again (e.g. fetched late from a peer) would
+        // leave a block file behind which is never purged and poisons the next restart
+        if !self.blockring.is_empty()
+            && block.id.saturating_add(self.genesis_period.saturating_mul(2))
+                <= self.get_latest_block_id()
+        {
+            debug!(
+                "block : {:?}-{:?} is older than the purge horizon. not adding",
+                block.id,
+                block.hash.to_hex()
+            );
+            return AddBlockResult::FailedNotValid;
+        }
+
         // get missing block
         if !self.blockring.is_empty() && self.get_block(&block.previous_block_hash).is_none() {
             if block.previous_block_hash == [0; 32] {
